@@ -627,6 +627,10 @@ def r04_2(ctx):
                             if tr.origin and tr.origin[0] == "rvalue" and tr.origin[1]["rv"]["k"] == "binop" and tr.origin[1]["rv"]["op"].startswith("Add"):
                                 a_ = trace(b, tr.origin[1]["rv"]["a"])
                                 additive = any(st_[0] == "field" and st_[1] == len_f for st_ in a_.steps)
+                        if rv["k"] == "binop" and rv["op"].startswith("Add"):
+                            # without overflow checks `len += n` is a plain `len = Add(len, n)`
+                            a_ = trace(b, rv["a"])
+                            additive = any(st_[0] == "field" and st_[1] == len_f for st_ in a_.steps)
                         if additive:
                             continue
                         ok_r = any(b.dominates(z, bi) for z in pos_zero) or (bool(pos_zero) and b.must_pass(bi, b.return_blocks(), pos_zero)) or bi in pos_zero
